@@ -149,7 +149,7 @@ def none_test(test: ast.AST, pol: bool = True) -> Optional[Tuple[ast.AST, bool]]
 RELS = ('predecessors', 'successors', 'parent', 'all_parents', 'children', 'all_children', 'all_predecessors',
         'all_successors')
 PASS_THROUGH = ('list', 'tuple', 'set', 'sorted', 'reversed', 'frozenset', 'iter', '_to_list', '_ImmutableTaskList',
-                '_unique_tasks', 'deque')
+                '_unique_tasks', 'deque', 'id')
 
 Paths = Dict[tuple, List[frozenset]]   # relation path (ops applied to the task parameter) -> DNF of the conditions
 UNCOND = [frozenset()]
@@ -401,6 +401,8 @@ class RelEval:
                     return self.ev(e.args[0], env, at)
             if isinstance(fn, ast.Attribute) and name == 'copy' and not e.args:
                 return self.ev(fn.value, env, at)
+            if isinstance(fn, ast.Name) and name in ('list', 'set', 'tuple', 'frozenset', 'deque') and not e.args and not e.keywords:
+                return {}
             if len(e.args) == 1 and not e.keywords and self.leaf_helper_of(e, self.f):
                 return _ext(self.ev(e.args[0], env, at), 'leaves')
             if len(e.args) == 1 and not e.keywords:
@@ -600,6 +602,8 @@ class RelEval:
         start = fl.reaching(name, at) if at is not None else fl.defs_of(name)
         if not start:
             raise Unknown(node, f"`{name}` has no local definition")
+        if len(start) == 1 and start[0].kind == 'assign' and self._self_filter(name, start[0].value) is not None:
+            return self._filtered(name, start[0], at, node)
         seen, work, contribs = set(), list(start), []
         closure = False
         base: Paths = {}
@@ -678,6 +682,75 @@ class RelEval:
         if closure:
             out = _union(out, _ext(out, 'all_parents'))
         return out
+
+    @staticmethod
+    def _self_filter(name: str, value) -> Optional[ast.comprehension]:
+        """the generator of `[p for p in name if ..]` (a list / set comprehension or list(<generator>) that keeps some elements of
+        the very list it is assigned to)"""
+        v = value
+        if isinstance(v, ast.Call) and isinstance(v.func, ast.Name) and v.func.id in ('list', 'tuple', 'sorted') and len(v.args) == 1 \
+                and not v.keywords:
+            v = v.args[0]
+        if isinstance(v, (ast.ListComp, ast.GeneratorExp, ast.SetComp)) and len(v.generators) == 1:
+            g = v.generators[0]
+            if isinstance(g.iter, ast.Name) and g.iter.id == name and isinstance(g.target, ast.Name) and isinstance(v.elt, ast.Name) \
+                    and v.elt.id == g.target.id and g.ifs:
+                return g
+        return None
+
+    def _filtered(self, name: str, d, at, node) -> Paths:
+        """`name = [p for p in name if C]`: what the list held before, narrowed by C.  A membership test against a local collection
+        drawn from the (transitive) successors of the listed tasks themselves (`id(p) not in chained`, chained filled from
+        `q.all_successors for q in name`) drops the tasks that come AFTER another one of the list: a test of the drawn tasks."""
+        key = f"filter:{name}:{id(d)}"
+        if key in self._busy:
+            raise Unknown(node, f"`{name}` is filtered in a loop over itself")
+        g = self._self_filter(name, d.value)
+        if at is not None and any(
+                isinstance(n, ast.Call) and isinstance(n.func, ast.Attribute) and isinstance(n.func.value, ast.Name)
+                and n.func.value.id == name and n.func.attr in ('append', 'extend', 'add', 'update', 'insert')
+                and self.cfg.node_containing(n) is not None and self.cfg.can_reach(d.node, self.cfg.node_containing(n))
+                and self.cfg.can_reach(self.cfg.node_containing(n), at) for n in walk_no_nested(self.f.node)):
+            raise Unknown(node, f"`{name}` is extended again after it was filtered")
+        self._busy.add(key)
+        self._busy.discard(name)
+        try:
+            inner = self._var(name, d.node, node)
+            env = {g.target.id: inner}
+            pend = []
+            for c in g.ifs:
+                for a, p in facts.split_conj(bool_ifexp(c), True):
+                    t, pol = a, p
+                    while isinstance(t, ast.UnaryOp) and isinstance(t.op, ast.Not):
+                        t, pol = t.operand, not pol
+                    done = False
+                    if isinstance(t, ast.Compare) and len(t.ops) == 1 and isinstance(t.ops[0], (ast.In, ast.NotIn)) \
+                            and isinstance(t.comparators[0], ast.Name):
+                        member = pol if isinstance(t.ops[0], ast.In) else not pol
+                        x = t.left
+                        if isinstance(x, ast.Call) and isinstance(x.func, ast.Name) and x.func.id == 'id' and len(x.args) == 1:
+                            x = x.args[0]
+                        if isinstance(x, ast.Attribute) and x.attr == 'id':
+                            x = x.value
+                        if isinstance(x, ast.Name) and x.id == g.target.id:
+                            try:
+                                sp = normalise({(k[:-1] if k and k[-1] == '@id' else k): c_
+                                                for k, c_ in self.var(t.comparators[0].id, d.node, t).items()})
+                            except Unknown:
+                                sp = None
+                            inner_n = set(normalise(inner))
+                            if sp and all(k and k[-1] in ('all_successors', 'successors') and k[:-1] in inner_n for k in sp):
+                                if not member:
+                                    shown = (f"{src(a)[:40]} - `{t.comparators[0].id}` holds {path_text(sorted(sp)[0], self.task_param)[:70]}, so of two "
+                                             f"chained predecessors the LATER, binding one is dropped and the earlier kept")
+                                    pend.append(((FILTER_MARK if p else 'not ' + FILTER_MARK) + shown, None))
+                                    done = True
+                    if not done:
+                        pend += self._apply_cond(a, p, env)
+            return self._finish(dict(env[g.target.id]), pend, env, d.node)
+        finally:
+            self._busy.discard(key)
+            self._busy.add(name)
 
     def _worklist_elements(self, wl: str, cur: str, node) -> Paths:
         """everything an explicit-stack traversal `pending = [task]; while pending: cur = pending.pop(); ..
